@@ -117,6 +117,37 @@ pub fn run(tier: &str, out: &str) -> i32 {
             }
         }
     }
+    // every code point of the Basic Multilingual Plane (and a stride through the astral planes) inside a short clean
+    // context: the binding must treat exactly the UTF-8 bytes, whatever the code point's low byte looks like
+    let c4 = CgrComputer::new("-".into(), "-".into(), 4);
+    let o1 = OligoComputer::new("-".into(), "-".into(), 1);
+    let mut cps: Vec<u32> = (0x80u32..=0xFFFF).filter(|c| !(0xD800..=0xDFFF).contains(c)).collect();
+    let stride = if thorough { 17 } else { 257 };
+    cps.extend((0x10000u32..=0x10FFFF).step_by(stride));
+    for cp in cps {
+        let ch = match char::from_u32(cp) {
+            Some(c) => c,
+            None => continue,
+        };
+        let s: String = ['A', ch, 'c'].iter().collect();
+        let b = s.as_bytes();
+        kmer_line(&mut w, b, 1);
+        match c4.verif_vectorise_one(b) {
+            Ok(p) => writeln!(w, "G {} 4 {}", hex(b), p.iter().map(|q| format!("{}:{}", bits(q.0), bits(q.1))).collect::<Vec<_>>().join(",")).unwrap(),
+            Err(_) => writeln!(w, "G {} 4 ERR", hex(b)).unwrap(),
+        }
+        let single: String = [ch].iter().collect();
+        match c4.verif_vectorise_one(single.as_bytes()) {
+            Ok(p) => writeln!(w, "G {} 4 {}", hex(single.as_bytes()), p.iter().map(|q| format!("{}:{}", bits(q.0), bits(q.1))).collect::<Vec<_>>().join(",")).unwrap(),
+            Err(_) => writeln!(w, "G {} 4 ERR", hex(single.as_bytes())).unwrap(),
+        }
+        if cp % 16 == 1 || cp < 0x800 {
+            let v: Vec<String> = o1.verif_vectorise_one(b).iter().map(|x| bits(*x)).collect();
+            writeln!(w, "O {} 1 1 {}", hex(b), v.join(",")).unwrap();
+            let items: Vec<String> = MinimiserGenerator::new(b, 1, 1).map(|(v, a, c)| format!("{}:{}:{}", v, a, c)).collect();
+            writeln!(w, "M {} 1 1 {}", hex(b), items.join(",")).unwrap();
+        }
+    }
     w.flush().unwrap();
     0
 }
